@@ -145,6 +145,7 @@ type Case struct {
 	Kind              string     // filling | patterntext | noise
 	Prior             []PriorReq `json:",omitempty"` // requests served by the same app (pooled ctx) before the main one
 	Override          []string   `json:",omitempty"` // built-in constraint names under which the app registered a custom constraint of its own
+	Mounted           bool       `json:",omitempty"` // the pattern and the custom constraints are registered on a sub-app that is mounted at "/" of a plain root app
 }
 
 // PriorReq is an earlier request on the same app; the same oracle applies to it.
@@ -238,6 +239,10 @@ func check(c Case) vk.Verdict {
 		return vk.Verdict{Skip: true}
 	}
 	app := fiber.New(fiber.Config{CaseSensitive: c.CS, StrictRouting: c.Strict, UnescapePath: c.Unesc})
+	root := app
+	if c.Mounted {
+		app = fiber.New(fiber.Config{CaseSensitive: c.CS, StrictRouting: c.Strict, UnescapePath: c.Unesc})
+	}
 	app.RegisterCustomConstraint(evenC{})
 	app.RegisterCustomConstraint(evenCapC{})
 	setOverridden(c.Override)
@@ -272,6 +277,10 @@ func check(c Case) vk.Verdict {
 	}()
 	if hit == -1 {
 		return vk.Failf("registering the documented-syntax pattern %q panicked", c.Pattern)
+	}
+	if c.Mounted {
+		root.Use("/", app)
+		app = root
 	}
 	main := c
 	var total vk.Verdict
@@ -514,6 +523,7 @@ func genCase(t *rapid.T) Case {
 	if rapid.IntRange(0, 3).Draw(t, "override") == 0 {
 		c.Override = rapid.SliceOfNDistinct(rapid.SampledFrom([]string{"int", "bool", "alpha"}), 1, 2, rapid.ID[string]).Draw(t, "overridden")
 	}
+	c.Mounted = rapid.IntRange(0, 4).Draw(t, "mounted") == 0
 	setOverridden(c.Override) // value generation below asks the constraint model
 	defer setOverridden(nil)
 	c.Toks = genToks(t)
